@@ -352,3 +352,30 @@ func f32(f float32) float64 {
 	}
 	return v
 }
+
+// clamped / finite are helpers for byte-decoded values (fuzzing): they bring the raw bits into
+// the range of the value's type.
+func (v Val) Clamped() Val {
+	switch v.T {
+	case "int8", "*int8":
+		v.I = int64(int8(v.I))
+	case "int16", "*int16":
+		v.I = int64(int16(v.I))
+	case "int32", "*int32":
+		v.I = int64(int32(v.I))
+	case "uint8", "*uint8":
+		v.U = uint64(uint8(v.U))
+	case "uint16", "*uint16":
+		v.U = uint64(uint16(v.U))
+	case "uint32", "*uint32":
+		v.U = uint64(uint32(v.U))
+	}
+	return v
+}
+
+func (v Val) Finite() Val {
+	if v.F != v.F || v.F > 3.5e38 || v.F < -3.5e38 {
+		v.F = 1.25
+	}
+	return v
+}
